@@ -117,6 +117,7 @@ def main():
         file_changed = False
         backup_file = yaml_file + ".bak"
         seen_anchors = []
+        seen_positions: set = set()
 
         # Each YAML_FILE must actually be a file
         if not isfile(yaml_file):
@@ -145,6 +146,14 @@ def main():
             for node_coordinate in processor.get_nodes(
                 yaml_path, mustexist=True
             ):
+                # Ignore values reached again through an Alias of the Hash
+                # or Array that holds them; they have already been rotated.
+                position = (id(node_coordinate.parent),
+                            repr(node_coordinate.parentref))
+                if position in seen_positions:
+                    continue
+                seen_positions.add(position)
+
                 # Ignore values which are Aliases for those already decrypted
                 node = node_coordinate.node
                 anchor_name = Anchors.get_node_anchor(node)
